@@ -362,8 +362,8 @@ def run(ctx):
         check_no_goto(f)
 
     def lookup(f):
-        cs = [c for c in walk(body_of(f)) if c.get('kind') == 'CallExpr' and call_name(c) in ('lower_bound', 'upper_bound', 'equal_range', 'find_if', 'binary_search')]
-        lam = [x for x in walk(body_of(f)) if x.get('kind') == 'LambdaExpr']
+        cs = [c for c in walk_deep(body_of(f), u) if c.get('kind') == 'CallExpr' and call_name(c) in ('lower_bound', 'upper_bound', 'equal_range', 'find_if', 'binary_search')]
+        lam = [x for x in walk_deep(body_of(f), u) if x.get('kind') == 'LambdaExpr']
         pred = None
         if lam:
             rs = [r for r in walk(lam[0]) if r.get('kind') == 'ReturnStmt']
@@ -383,10 +383,24 @@ def run(ctx):
         return cs, pred
     ca, pa = lookup(add)
     cr, pr = lookup(rem)
-    ctx.check(len(ca) == 1 and call_name(ca[0]) == 'lower_bound' and pa in ('(x.fd < y.fd)', '(@0.fd < @1.fd)'), R, 'add|lookup', ca[0] if ca else add, 'lower_bound with x.fd < y.fd',
+    ctx.check(len(ca) == 1 and call_name(ca[0]) == 'lower_bound' and pa in ('(x.fd < y.fd)', '(@0.fd < @1.fd)', '(@0.fd < @1)'), R, 'add|lookup', ca[0] if ca else add, 'lower_bound with x.fd < y.fd',
               'Poll::add locates the slot with %s / %s: with upper_bound the equality test on the result can never be true and a descriptor that is already present is inserted again' % ([call_name(c) for c in ca], pa))
     ctx.check(len(cr) == 1 and call_name(cr[0]) == 'lower_bound' and pr == pa, R, 'remove|lookup', cr[0] if cr else rem, 'same search as add', 'Poll::remove searches with %s / %s, add with %s' % ([call_name(c) for c in cr], pr, pa))
-    itv = enclosing(ca[0], ('VarDecl',)) if ca else None
+    def result_var(f_, call_):
+        """the local of f_ that holds the lookup result: initialised by the search itself or by the helper that runs it"""
+        if call_ is None:
+            return None
+        if enclosing_function(call_) is f_ or any(a is body_of(f_) for a in ancestors(call_)):
+            return enclosing(call_, ('VarDecl',))
+        for v_ in walk(body_of(f_)):
+            if v_.get('kind') == 'VarDecl' and kids(v_):
+                for c_ in walk(v_):
+                    if c_.get('kind') in ('CallExpr', 'CXXMemberCallExpr'):
+                        d_ = callee_decl(c_, u)
+                        if d_ is not None and body_of(d_) is not None and any(y is call_ for y in walk(body_of(d_))):
+                            return v_
+        return None
+    itv = result_var(add, ca[0] if ca else None)
     ins = [c for c in walk(body_of(add)) if c.get('kind') == 'CXXMemberCallExpr' and canon(member_call_object(c)) == 'this.poll_fds' and call_name(c) in ('insert', 'push_back', 'emplace_back', 'emplace')]
     ctx.require(len(ins) >= 1 and itv is not None, 'Poll::add: insertion or lookup result not found')
     for i, c in enumerate(ins):
@@ -398,7 +412,7 @@ def run(ctx):
                   'an element is added to poll_fds without the lookup having shown the descriptor absent (guard: %s): re-adding a descriptor leaves a duplicate, remove() then erases only one copy and empty() stays false' % [s_ for s_, p_ in facts])
     upd = [x for x in walk(body_of(add)) if x.get('kind') == 'BinaryOperator' and x.get('opcode') == '=' and nf(x['inner'][0]).endswith('.events') and nf(x['inner'][1]) == 'events' and itv['name'] in nf(x['inner'][0])]
     ctx.check(len(upd) == 1, R, 'add|replace-existing', upd[0] if upd else add, 'an existing entry has its events replaced', 're-adding an existing descriptor does not replace its events')
-    itr = enclosing(cr[0], ('VarDecl',)) if cr else None
+    itr = result_var(rem, cr[0] if cr else None)
     ers = [c for c in walk(body_of(rem)) if c.get('kind') == 'CXXMemberCallExpr' and call_name(c) == 'erase' and canon(member_call_object(c)) == 'this.poll_fds']
     okr = len(ers) == 1 and itr is not None and nf(call_args(ers[0])[0]) == itr['name']
     if okr:
